@@ -310,6 +310,8 @@ def solver_point_infeasible(wrapper, ctx, tol=1e-6):
     Independent of PEPit: a constraint that PEPit mis-states or mis-sends is still satisfied by the solver's point."""
     prob = getattr(wrapper, "prob", None)
     if prob is None:
+        prob = getattr(getattr(wrapper, "task", None), "cvxpy_problem", None)     # MOSEK stand-in: its inner problem
+    if prob is None:
         return False
     worst = 0.0
     try:
